@@ -101,6 +101,10 @@ func rawOrigin(r *hk.Run, rng *hk.Rand) {
 			c.EnableDumpAllTo(io.Discard)
 		}
 		rq := c.R().SetHeader("X-Case", id).SetHeader("X-Req", "rv").SetCookies(&http.Cookie{Name: "rc", Value: "9"}).SetQueryParam("rq", "2")
+		reqDump := !withDump && rng.Chance(60)
+		if reqDump { // request-level dump buffer and trace: reset before every retry
+			rq.EnableDump().EnableTrace()
+		}
 		if useCond {
 			rq.SetRetryCondition(func(resp *req.Response, err error) bool {
 				return err != nil || (resp.Response != nil && resp.StatusCode >= 429)
@@ -180,6 +184,23 @@ func rawOrigin(r *hk.Run, rng *hk.Rand) {
 			} else if rerr != nil || resp.StatusCode != last {
 				failCapped(r, hk.Failure{Sig: "raw:final" + tag, What: "final response is not the last attempt's", Input: in, Got: fmt.Sprint(rerr), Want: last})
 			}
+			// the request-level dump buffer is reset before every retry: what Dump() returns
+			// afterwards is the last attempt only (one request head, the last status line)
+			if reqDump && resp != nil {
+				d := resp.Dump()
+				nreq := strings.Count(d, method+" /raw/path")
+				nresp := strings.Count(d, "HTTP/1.1 ") // status lines only: the request line ends in "HTTP/1.1\r\n"
+				wantResp := 1
+				if last == 0 {
+					wantResp = 0
+				}
+				okStatus := last == 0 || strings.Contains(d, fmt.Sprintf("HTTP/1.1 %d", last))
+				if nreq != 1 || nresp != wantResp || !okStatus {
+					failCapped(r, hk.Failure{Sig: "raw:dump-not-last-attempt" + tag, What: "Dump() after a retried call is not the dump of the last attempt alone", Input: in,
+						Got: map[string]interface{}{"request_heads": nreq, "http_lines": nresp, "last_status_seen": okStatus}, Want: "1 request head, last attempt's status line"})
+				}
+				r.Count("raw.request-dump-checked")
+			}
 		}
 		r.Count("raw.programs")
 		r.Count(fmt.Sprintf("raw.attempts=%d", len(obs)))
@@ -198,7 +219,7 @@ func rawCanonMP(h rawHit) rawHit {
 		}
 		lines = append(lines, l)
 	}
-	if cb, ok := canonMultipart(ct, h.Body); ok {
+	if cb, ok := canonMultipart(ct, h.Body, nil); ok {
 		return rawHit{Line: h.Line, Header: strings.Join(lines, "\n"), Body: cb}
 	}
 	return h
